@@ -160,11 +160,16 @@ func startUnitWatchdog() {
 				cpu := procCPU() - cpu0
 				var ms runtime.MemStats
 				runtime.ReadMemStats(&ms)
-				if cpu < runawayCPU && !(ms.Sys > runawayMem && cpu > 1) {
+				if ms.HeapAlloc > maxHeapSeen.Load() {
+					maxHeapSeen.Store(ms.HeapAlloc)
+				}
+				// HeapAlloc (live objects plus garbage not yet swept), not Sys: Sys also
+				// counts memory of earlier units that the runtime keeps for reuse
+				if cpu < runawayCPU && !(ms.HeapAlloc > runawayMem && cpu > 1) {
 					continue
 				}
 				what := "unbounded loop"
-				if ms.Sys > runawayMem {
+				if ms.HeapAlloc > runawayMem {
 					what = "unbounded allocation"
 				}
 				f := c.f
@@ -209,6 +214,8 @@ func productPanic(r any, stack []byte) (Finding, bool) {
 	}
 	return Finding{}, false
 }
+
+var maxHeapSeen atomic.Uint64
 
 var lastUnit atomic.Pointer[Unit]
 var lastOut atomic.Pointer[WorkerOut]
@@ -406,6 +413,9 @@ func main() {
 		}
 		b, _ := json.Marshal(out)
 		fmt.Println("RESULT " + string(b))
+		if os.Getenv("STREAMMC_MEMSTAT") != "" {
+			fmt.Fprintf(os.Stderr, "MEMSTAT shard %d: max HeapAlloc seen in a case %d MB (cap %d MB)\n", *shard, maxHeapSeen.Load()>>20, runawayMem>>20)
+		}
 		return
 	}
 	os.Exit(parent(*prop, *tier, len(units), *evidence, *replayDir, *known, *jobs))
